@@ -326,6 +326,17 @@ fn process(req: &J) -> J {
             "structure",
             J::Arr(st.violations.iter().map(|s| J::s(s.clone())).collect()),
         );
+        if has(&want, "c15") || has(&want, "abs") {
+            let ab = mon::abstract_walk(&igr, &st);
+            let mut a = J::obj();
+            a.set("violations", J::Arr(ab.violations.iter().map(|s| J::s(s.clone())).collect()));
+            a.set("roots", J::Int(ab.roots as i64));
+            a.set("reached", J::Int(ab.reached as i64));
+            a.set("joins", J::Int(ab.joins as i64));
+            a.set("edges", J::Int(ab.edges as i64));
+            a.set("carried", J::Int(ab.carried_checked as i64));
+            g.set("abs", a);
+        }
         if has(&want, "listing") {
             g.set(
                 "listing",
@@ -475,6 +486,7 @@ fn process(req: &J) -> J {
             mo.set("distinct_states", J::Int(m.distinct_states.len() as i64));
             mo.set("back_jumps", J::Int(m.back_jumps as i64));
             mo.set("calls", J::Int(m.calls as i64));
+            mo.set("calib", J::Int(m.calib_checked as i64));
             mo.set(
                 "max_depths",
                 J::Arr(m.max_depths.iter().map(|d| J::Int(*d as i64)).collect()),
